@@ -238,6 +238,10 @@ func (eb *EventBuilder) Build(
 		err = fmt.Errorf("EventBuilder.Build: event is not valid UTF-8")
 		return
 	}
+	if hasUnpairedSurrogateEscape(eventJSON) {
+		err = fmt.Errorf("EventBuilder.Build: event has an unpaired surrogate escape")
+		return
+	}
 	// ... nor one whose content is not an object, or whose signatures (the
 	// proto-event may bring some of other servers) are not a map of maps.
 	if err = checkUntrustedEventShape(eventJSON); err != nil {
